@@ -27,7 +27,7 @@ KEYS = [  # (trace cfg with the deviation on, key)
     ("TraceSchema_asis_f9.cfg", "F9-alterdrop-selfref-stale-fktohere"),
     ("TraceSchema_asis_f16.cfg", "F16-alterdrop-fktohere-iindex-overwritten"),
     ("TraceSchema_asis_f17.cfg", "F17-create-selfref-then-other-fk-refused"),
-    ("TraceSchema_asis_all.cfg", "F9+F16+F17-combined"),
+    ("TraceSchema_asis_all.cfg", "F9+F16-combined"),
 ]
 
 
@@ -52,7 +52,13 @@ def classify(ctx, lines, ln, n):
     pre = os.path.join(ctx.work, "rej%d-prefix.ndjson" % n)
     with open(pre, "w") as f:
         f.write("\n".join(lines[start:ln]) + "\n")
-    for cfg, key in KEYS:
+    try:
+        op = json.loads(lines[ln - 1])["req"]["op"]
+    except Exception:
+        op = ""
+    # F17 concerns create / ensure only, F9 and F16 alter drop (and what follows it)
+    cand = [k for k in KEYS if (k[1].startswith("F17") if op in ("Create", "Ensure") else not k[1].startswith("F17"))]
+    for cfg, key in cand:
         r = ctx.tlc_trace("TraceSchema.tla", cfg, pre, timeout=300, ntraces=0)
         if r["accepted"]:
             ctx.cov["events_validated"] -= r["events"]   # classification runs are not evidence
@@ -95,6 +101,11 @@ def validate(ctx, trace, budget_s=240):
         else:
             reported[k] += 1
         ctx.cov.setdefault("rejected_scenarios", []).append({"line": ln, "request": req, "key": key})
+        if key is None:
+            # not one of the classified defects: a plain violation, nothing more to learn
+            if end < len(lines):
+                ctx.log("stopping at the first unexplained rejection; %d lines not validated" % (len(lines) - end))
+            break
         if end >= len(lines) or n >= 40 or time.time() - t0 > budget_s:
             if end < len(lines):
                 ctx.log("stopping after %d rejected scenarios; %d lines not validated" % (n, len(lines) - end))
@@ -113,6 +124,10 @@ def run(ctx):
     if ctx.replay:
         validate(ctx, ctx.replay)
         return
+    conformance(ctx) if os.environ.get("VERIF_C21_SKIP_MC") == "1" else (design(ctx), conformance(ctx))
+
+
+def design(ctx):
     # 1. design level: exhaustive TLC on Schema.tla
     w = 8
     if ctx.thorough():
@@ -123,19 +138,30 @@ def run(ctx):
     # anti-vacuity: the deviations of the code must violate the link invariant in the model
     ctx.tlc_mc("MC_Schema.tla", "Schema_dev_f9.cfg", workers=2, timeout=600, expect_violation="InvLinks", count=False)
     ctx.tlc_mc("MC_Schema.tla", "Schema_dev_iidx.cfg", workers=2, timeout=600, expect_violation="InvLinks", count=False)
+
+
+def conformance(ctx):
     # 2. conformance: real DoAdmin on heap databases with rows, validated by TraceSchema
     drv = ctx.go_build("schema")
     trace = os.path.join(ctx.work, "schema.ndjson")
     if ctx.thorough():
         args = [trace, 1500, 100, "pairs"]
     else:
-        args = [trace, 60, 35]
+        args = [trace, 40, 30]
     rc, out, summ = ctx.driver(drv, args, timeout=1500)
     if rc != 0 or not summ:
         import vlib
         raise vlib.Infra("schema driver failed rc=%s:\n%s" % (rc, out[-3000:]))
     ctx.sample_trace_lines(trace, 2)
-    validate(ctx, trace, budget_s=600 if ctx.thorough() else 240)
+    nrej = validate(ctx, trace, budget_s=900 if ctx.thorough() else 150)
+    if summ.get("crashes", 0) and nrej == 0:
+        # the code under test killed the driver's child process (e.g. FATAL in the merger
+        # goroutine) although every recorded step conforms: not expressible as a rejected
+        # trace line, so not a verdict
+        import vlib
+        raise vlib.Infra("code under test crashed the driver (%s) but the recorded trace conforms"
+                         % summ.get("crash_msgs"))
+    ctx.cov["driver_child_crashes"] = summ.get("crashes", 0)
     for k in ("scenarios", "requests", "ok", "error", "inserts"):
         ctx.cov["real_" + k] = summ.get(k, 0)
     ctx.assumptions += [
